@@ -981,3 +981,48 @@ pub fn std_repeat() {
     kani::cover!(r.is_ok() && count > 1 << 62 && n == 0, "huge count on the empty string reached");
     kani::cover!(r.is_err() && n == 1, "overflow reported as an error reached");
 }
+
+// ------------------------------------------------------------------------------------------------
+// std math functions that are pure selection: the definitions of the Jsonnet standard library
+// ------------------------------------------------------------------------------------------------
+fn any_finite() -> f64 {
+    let a: f64 = kani::any();
+    kani::assume(a.is_finite());
+    a
+}
+//@harness name=num_std_clamp tier=quick timeout=300 unwind=4 desc="builtin_clamp: no panic, and the value of `if x < minVal then minVal else if x > maxVal then maxVal else x`" bounds="all triples of finite doubles (192 symbolic bits)"
+#[kani::proof]
+#[kani::unwind(4)]
+pub fn num_std_clamp() {
+    let (x, lo, hi) = (any_finite(), any_finite(), any_finite());
+    let want = if x < lo { lo } else if x > hi { hi } else { x };
+    #[cfg(verif_playback)]
+    {
+        println!("REPLAY-INPUT: x={:e} min={:e} max={:e}", x, lo, hi);
+        println!("REPLAY-JSONNET: std.clamp({}, {}, {}) == {}", lit(x), lit(lo), lit(hi), lit(want));
+        println!("REPLAY-EXPECT: value true");
+    }
+    let got = crate::stdmath::builtin_clamp(x, lo, hi);
+    assert!(got == want, "C09.std.clamp std.clamp differs from its definition");
+    kani::cover!(lo > hi, "inverted bounds reached");
+    kani::cover!(x > hi && lo < hi, "clamped from above reached");
+}
+//@harness name=num_std_select tier=quick timeout=300 unwind=4 desc="builtin_max/min/abs/sign: the values of their Jsonnet definitions (up to the sign of zero), no panic" bounds="all pairs of finite doubles"
+#[kani::proof]
+#[kani::unwind(4)]
+pub fn num_std_select() {
+    let (a, b) = (any_finite(), any_finite());
+    #[cfg(verif_playback)]
+    {
+        println!("REPLAY-INPUT: a={:e} b={:e}", a, b);
+        println!("REPLAY-JSONNET: [std.max({a}, {b}) == (if {a} > {b} then {a} else {b}), std.min({a}, {b}) == (if {a} < {b} then {a} else {b}), std.abs({a}) == (if {a} > 0 then {a} else -{a}), std.sign({a}) == (if {a} > 0 then 1 else if {a} < 0 then -1 else 0)]", a = lit(a), b = lit(b));
+        println!("REPLAY-EXPECT: value [true, true, true, true]");
+    }
+    use crate::stdmath::*;
+    assert!(builtin_max(a, b) == if a > b { a } else { b }, "C09.std.max std.max differs from its definition");
+    assert!(builtin_min(a, b) == if a < b { a } else { b }, "C09.std.min std.min differs from its definition");
+    assert!(builtin_abs(a) == if a > 0.0 { a } else { -a }, "C09.std.abs std.abs differs from its definition");
+    assert!(builtin_sign(a) == if a > 0.0 { 1.0 } else if a < 0.0 { -1.0 } else { 0.0 }, "C09.std.sign std.sign differs from its definition");
+    kani::cover!(a < 0.0 && b > a, "negative operand reached");
+    kani::cover!(a == 0.0 && a.is_sign_negative(), "negative zero reached");
+}
